@@ -54,7 +54,8 @@ pub fn build_base(path: &str, pagesize: u64, commits_code: usize) -> Result<Base
     let legacy_upgrade = (2000..3000).contains(&commits_code);
     // 3000 + n: the last commit makes committed leaves split; 4000 + n: the last commit deletes a
     // committed bucket and allocates many pages (what the previous header points to must survive both)
-    let tail_kind = if commits_code >= 4000 { 2 } else if commits_code >= 3000 { 1 } else { 0 };
+    // 5000 + n: the last commit writes leaves that end exactly at the end of their page run
+    let tail_kind = if commits_code >= 5000 { 3 } else if commits_code >= 4000 { 2 } else if commits_code >= 3000 { 1 } else { 0 };
     let commits = commits_code % 1000;
     for i in 1..=commits {
         let v = r.step(&Action::Tx { ops: commit_ops(i), commit: true }, &Oracles::NONE);
@@ -80,7 +81,10 @@ pub fn build_base(path: &str, pagesize: u64, commits_code: usize) -> Result<Base
         states.push(r.model.clone());
     }
     if tail_kind > 0 {
-        let ops: Vec<OpSpec> = if tail_kind == 1 {
+        let ops: Vec<OpSpec> = if tail_kind == 3 {
+            // page header 40 + element 32 + key 1 + value = 1024 resp. 2048
+            vec![OpSpec::bucket("create", &[], "z1"), OpSpec::put(&["z1"], "o", "t*951"), OpSpec::bucket("create", &[], "z2"), OpSpec::put(&["z2"], "o", "t*1975"), OpSpec::put(&["m"], "shared", "exact*40")]
+        } else if tail_kind == 1 {
             (0..10).map(|i| OpSpec::put(&["m"], &format!("split{:02}", i), "w*300")).chain((0..6).map(|i| OpSpec::put(&["m", "sub"], &format!("t{}", i), "w*300"))).collect()
         } else {
             std::iter::once(OpSpec::bucket("delb", &["m"], "sub")).chain((0..12).map(|i| OpSpec::put(&["m"], &format!("fresh{:02}", i), "w*300"))).chain(std::iter::once(OpSpec::bucket("create", &["m"], "sub2"))).chain((0..4).map(|i| OpSpec::put(&["m", "sub2"], &format!("u{}", i), "x*1500"))).collect()
@@ -371,6 +375,8 @@ pub fn run(check: &mut Check) {
         codes.push(3003);
         codes.push(4003);
         codes.push(4002);
+        codes.push(5003);
+        codes.push(5002);
         if tier == Tier::Thorough {
             codes.push(1005);
             codes.push(2004);
